@@ -422,6 +422,8 @@ def model_agrees(line, impl, model):
         if status_of(impl) == "idx":
             return flatten_idx(impl[4:]) == flatten_idx(model[4:])
         return True
+    if mode == "nouse":
+        return impl.split(" used ")[0] == model.split(" used ")[0]
     if mode == "tree":
         return tree_of(impl) == tree_of(model)
     if mode == "heap":
